@@ -154,24 +154,234 @@ const C: &str = string::str_concat!(&['a', 'b']);
 fn main() { let _ = (A, B, C); }
 '''
 
+C02P = ALLOW + r'''
+use konst::slice;
+fn a<'a>(s: &'a [u8], i: usize) -> (&'a [u8], &'a [u8], &'a [u8]) { (slice::slice_from(s, i), slice::slice_up_to(s, i), slice::slice_range(s, 1, i)) }
+fn b<'a>(s: &'a [u8], i: usize) -> (Option<&'a [u8]>, Option<&'a [u8]>, Option<&'a [u8]>, Option<&'a u8>) { (slice::get_from(s, i), slice::get_up_to(s, i), slice::get_range(s, 1, i), slice::get(s, i)) }
+fn c<'a>(s: &'a [u8], i: usize) -> (&'a [u8], &'a [u8]) { slice::split_at(s, i) }
+fn d<'a>(s: &'a mut [u8], i: usize) -> (&'a mut [u8], &'a mut [u8]) { slice::split_at_mut(s, i) }
+fn e<'a>(s: &'a mut [u8], i: usize) -> &'a mut [u8] { slice::slice_from_mut(s, i) }
+fn f<'a>(s: &'a mut [u8], i: usize) -> &'a mut [u8] { slice::slice_up_to_mut(s, i) }
+fn g<'a>(s: &'a mut [u8], i: usize) -> Option<&'a mut [u8]> { slice::get_range_mut(s, 1, i) }
+fn h<'a>(s: &'a mut [u8]) -> Option<(&'a mut u8, &'a mut [u8])> { slice::split_first_mut(s) }
+fn arr<'a>(s: &'a [u8]) -> Option<&'a [u8; 2]> { match slice::try_into_array::<u8, 2>(s) { Ok(a) => Some(a), Err(_) => None } }
+fn arrm<'a>(s: &'a mut [u8]) -> Option<&'a mut [u8; 2]> { match slice::try_into_array_mut::<u8, 2>(s) { Ok(a) => Some(a), Err(_) => None } }
+const D: &[u8] = &[1, 2, 3, 4, 5];
+const X: (&[u8], &[u8], Option<&[u8]>, (&[u8], &[u8])) = (slice::slice_from(D, 1), slice::slice_up_to(D, 9), slice::get_range(D, 1, 3), slice::split_at(D, 2));
+const CH: (&[[u8; 2]], &[u8]) = slice::as_chunks::<u8, 2>(D);
+const fn cf<'a, T>(s: &'a [T], i: usize) -> &'a [T] { slice::slice_range(s, i, usize::MAX) }
+const fn cm(mut a: [u8; 3]) -> [u8; 3] { let (l, r) = slice::split_at_mut(&mut a, 1); l[0] += r[1]; a }
+struct NotCopy(String);
+fn generic<'a>(s: &'a [NotCopy]) -> (&'a [NotCopy], Option<&'a NotCopy>) { (slice::slice_from(s, 1), slice::get(s, 0)) }
+fn main() { let mut v = [1u8, 2, 3]; let _ = (a(D, 1), b(D, 1), c(D, 1), X, CH, cf(D, 1), cm([1, 2, 3]), arr(&D[..2])); let _ = d(&mut v, 1); let _ = e(&mut v, 1); let _ = f(&mut v, 1); let _ = g(&mut v, 2); let _ = h(&mut v); let _ = arrm(&mut v[..2]); let _ = generic(&[]); }
+'''
+
+C0345P = ALLOW + r'''
+use konst::string;
+// results borrow the haystack, never the pattern
+fn s1<'a>(h: &'a str, p: &str) -> (Option<&'a str>, Option<&'a str>, Option<&'a str>, Option<&'a str>) { (string::find_skip(h, p), string::find_keep(h, p), string::rfind_skip(h, p), string::rfind_keep(h, p)) }
+fn s2<'a>(h: &'a str, p: &str) -> (Option<&'a str>, Option<&'a str>) { (string::strip_prefix(h, p), string::strip_suffix(h, p)) }
+fn s3<'a>(h: &'a str, p: &str) -> (&'a str, &'a str, &'a str) { (string::trim_start_matches(h, p), string::trim_end_matches(h, p), string::trim_matches(h, p)) }
+fn s4<'a>(h: &'a str, c: char) -> (Option<(&'a str, &'a str)>, Option<(&'a str, &'a str)>) { (string::split_once(h, c), string::rsplit_once(h, c)) }
+fn s5<'a>(h: &'a str) -> (&'a str, &'a str, &'a str) { (string::trim(h), string::trim_start(h), string::trim_end(h)) }
+fn s6<'a>(h: &'a str, i: usize) -> (&'a str, &'a str, &'a str, (&'a str, &'a str)) { (string::str_from(h, i), string::str_up_to(h, i), string::str_range(h, 0, i), string::split_at(h, i)) }
+fn s7<'a>(h: &'a str, i: usize) -> (Option<&'a str>, Option<&'a str>, Option<&'a str>) { (string::get_from(h, i), string::get_up_to(h, i), string::get_range(h, 0, i)) }
+fn s9(h: &str, n: &String, b: &Box<str>, c: &std::borrow::Cow<'_, str>) -> (Option<usize>, Option<usize>, bool, Option<usize>) { use std::borrow::Borrow; (string::find(h, n.as_ref()), string::rfind(h, b.as_ref()), string::contains(h, c.as_ref()), string::find(h, n.borrow())) }
+fn s10<'a>(h: &'a str) -> (&'a str, Option<&'a str>, Option<(&'a str, &'a str)>) { let n = String::from("ab"); (string::trim_matches(h, n.as_str()), string::find_skip(h, n.as_str()), string::split_once(h, n.as_str())) }
+fn s8(h: &str, p: &String) -> (Option<usize>, Option<usize>, bool, bool, bool) { let p: &str = p; (string::find(h, p), string::rfind(h, p), string::contains(h, p), string::starts_with(h, p), string::ends_with(h, p)) }
+fn b1<'a>(h: &'a [u8], p: &[u8]) -> (Option<&'a [u8]>, Option<&'a [u8]>, &'a [u8], &'a [u8]) { (konst::slice::bytes_strip_prefix(h, p), konst::slice::bytes_find_skip(h, p), konst::slice::bytes_trim(h), konst::slice::bytes_trim_matches(h, p)) }
+fn b2(h: &[u8]) -> (Option<usize>, Option<usize>, bool) { (konst::slice::bytes_find(h, b"ab"), konst::slice::bytes_rfind(h, &[1u8, 2][..]), konst::slice::bytes_contain(h, "x")) }
+const H: &str = "  aé-b  ";
+const C1: (Option<&str>, &str, Option<(&str, &str)>, &str, Option<&str>) = (string::find_skip(H, "é"), string::trim(H), string::split_once(H, '-'), string::str_from(H, 2), string::get_range(H, 2, 5));
+const fn cf<'a>(h: &'a str, p: &str) -> &'a str { match string::find_keep(h, p) { Some(r) => string::trim_end_matches(r, ' '), None => h } }
+const fn cb(h: &str, i: usize) -> bool { string::is_char_boundary(h, i) }
+fn main() { let p = String::from("a"); let _ = s9(H, &p, &Box::from("a"), &std::borrow::Cow::Borrowed("a")); let _ = s10(H); let _ = (s1(H, &p), s2(H, &p), s3(H, &p), s4(H, '-'), s5(H), s6(H, 2), s7(H, 2), s8(H, &p), b1(H.as_bytes(), b" "), b2(b"ab"), C1, cf(H, "a"), cb(H, 3)); }
+'''
+
+C121314P = ALLOW + r'''
+use konst::{Parser, parsing::{ParseError, ParseValueResult, ErrorKind, ParseDirection}, primitive, result, try_, unwrap_ctx};
+const N: (u8, i64, u128, bool) = (unwrap_ctx!(primitive::parse_u8("12")), unwrap_ctx!(primitive::parse_i64("-5")), unwrap_ctx!(primitive::parse_u128("7")), unwrap_ctx!(primitive::parse_bool("true")));
+const fn pair(s: &str) -> Result<(u32, u32), ParseError<'_>> {
+    let p = Parser::new(s);
+    let (a, p) = try_!(p.parse_u32());
+    let p = try_!(p.strip_prefix(','));
+    let (b, p) = try_!(p.trim_start().parse_u32());
+    Ok((a, b))
+}
+// the remainder and the pieces borrow the parsed string
+fn rem<'a>(s: &'a str) -> &'a str { Parser::new(s).trim().remainder() }
+fn piece<'a>(s: &'a str, d: &str) -> Option<(&'a str, &'a str)> { match Parser::new(s).split(d) { Ok((x, p)) => Some((x, p.remainder())), Err(_) => None } }
+fn rpiece<'a>(s: &'a str) -> Option<&'a str> { match Parser::new(s).rsplit_terminator(';') { Ok((x, _)) => Some(x), Err(_) => None } }
+fn keep<'a>(s: &'a str) -> Option<&'a str> { match Parser::new(s).split_keep("=") { Ok((x, _)) => Some(x), Err(_) => None } }
+fn short_lived_patterns<'a>(s: &'a str, sep: char) -> (&'a str, &'a str, &'a str, &'a str) {
+    let d = sep.to_string();
+    let d = d.as_str();
+    let p = Parser::new(s);
+    let a = match p.split(d) { Ok((x, _)) => x, Err(_) => "" };
+    let b = match p.rsplit(d) { Ok((x, _)) => x, Err(_) => "" };
+    let c = match p.split_terminator(d) { Ok((x, _)) => x, Err(_) => "" };
+    let e = match p.rsplit_terminator(d) { Ok((x, _)) => x, Err(_) => "" };
+    let _k = match p.split_keep(d) { Ok((x, _)) => x, Err(_) => "" };
+    let r1 = match p.strip_prefix(d) { Ok(q) => q.remainder(), Err(_) => "" };
+    let r2 = match p.strip_suffix(d) { Ok(q) => q.remainder(), Err(_) => "" };
+    let r3 = p.trim_matches(d).trim_start_matches(d).trim_end_matches(d).remainder();
+    let r4 = match p.find_skip(d) { Ok(q) => q.remainder(), Err(_) => "" };
+    let r5 = match p.rfind_skip(d) { Ok(q) => q.remainder(), Err(_) => "" };
+    let _ = (c, e, r1, r2, r4, r5);
+    (a, b, r3, r4)
+}
+fn copyable(p: Parser<'_>) -> (usize, usize) { let q = p; (p.start_offset(), q.end_offset()) }
+fn err_of<'a>(s: &'a str) -> Option<(usize, ParseDirection, ErrorKind)> { match Parser::with_start_offset(s, 4).rfind_skip("zz") { Ok(_) => None, Err(e) => { let e2 = e.copy(); Some((e2.offset(), e.error_direction(), e.kind())) } } }
+const fn all_ops(p: Parser<'_>) -> Parser<'_> { p.skip(1).skip_back(1).trim().trim_start().trim_end().trim_matches('x').trim_start_matches("y").trim_end_matches('z') }
+const fn fallible(p: Parser<'_>) -> Result<Parser<'_>, ParseError<'_>> { let p = try_!(p.find_skip("a")); let p = try_!(p.rfind_skip('b')); let p = try_!(p.strip_suffix("c")); Ok(p) }
+const fn pv(p: Parser<'_>) -> ParseValueResult<'_, i8> { p.parse_i8() }
+mod shadowed { type Result<T> = core::result::Result<T, ()>; type Option = (); pub fn f(p: konst::Parser<'_>) -> bool { konst::parse_with!(p, u16).is_ok() } }
+const P: Result<(u32, u32), ParseError<'static>> = pair("3, 4");
+fn main() { let _ = short_lived_patterns("a,b", ','); let _ = (N, pair("1,2").is_ok(), rem(" a "), piece("a-b", "-"), rpiece("a;b;"), keep("k=v"), copyable(Parser::new("ab")), err_of("abc"), all_ops(Parser::new("xyz")).remainder(), fallible(Parser::new("abc")).is_ok(), pv(Parser::new("-3")).is_ok(), P.is_ok(), shadowed::f(Parser::new("1"))); }
+'''
+
+C16P = ALLOW + r'''
+macro_rules! matches { ($($t:tt)*) => { compile_error!("user matches") }; }
+macro_rules! assert { ($($t:tt)*) => { compile_error!("user assert") }; }
+macro_rules! panic { ($($t:tt)*) => { compile_error!("user panic") }; }
+macro_rules! unreachable { ($($t:tt)*) => { compile_error!("user unreachable") }; }
+use core::cmp::Ordering;
+use konst::{const_cmp, const_cmp_for, const_eq, const_eq_for, assertc_eq, assertc_ne, string, slice};
+const S1: &[u8] = &[1, 2];
+const S2: &[u8] = &[1, 3];
+const A: (bool, Ordering, bool, Ordering) = (const_eq!("a", "a"), const_cmp!(1u8, 2u8), const_eq!(Some(3i64), None), const_cmp!(S1, S2));
+const B: (bool, Ordering) = (const_eq_for!(slice; S1, S1), const_cmp_for!(slice; S1, S2));
+const C: (bool, Ordering) = (const_eq_for!(option; Some(1u8), Some(1u8)), const_cmp_for!(option; None::<u8>, Some(1u8)));
+const D: (bool, Ordering, bool, Ordering) = (string::eq_str("a", "b"), string::cmp_str("a", "b"), slice::eq_bytes(b"a", b"a"), slice::cmp_bytes(b"a", b"b"));
+const E: (bool, Ordering, bool) = (konst::slice::cmp::eq_slice_u16(&[1], &[1]), konst::slice::cmp::cmp_slice_i128(&[-1], &[1]), konst::slice::cmp::eq_slice_str(&["a"], &["a"]));
+const F: (bool, Ordering) = (konst::eq_option_str(Some("a"), Some("a")), konst::cmp_option_str(None, Some("a")));
+const _: () = { assertc_eq!("a", "a"); assertc_ne!(1u8, 2u8); };
+const fn user_cmp(a: &(u8, &str), b: &(u8, &str)) -> Ordering { konst::try_equal!(const_cmp!(a.0, b.0)); const_cmp!(a.1, b.1) }
+const T1: &[(u8, &str)] = &[(1u8, "a")];
+const T2: &[(u8, &str)] = &[(1u8, "b")];
+const G: Ordering = const_cmp_for!(slice; T1, T2, user_cmp);
+const H: (u8, &str) = (konst::min!(3u8, 4), konst::max_by_key!("ab", "c", |s| s.len()));
+fn main() { let _ = (A, B, C, D, E, F, G, H); }
+'''
+
+SHADOW_TYPES = '#![allow(unused, non_camel_case_types, non_snake_case, non_upper_case_globals)]\n' + r'''// user items named like std's: modules, types, variants, functions
+mod core {}
+mod std {}
+mod alloc {}
+mod konst_kernel {}
+type Result<T> = ::core::result::Result<T, ()>;
+struct Option;
+struct Vec;
+struct String;
+struct Box;
+struct Ordering;
+struct PhantomData;
+struct ManuallyDrop;
+struct MaybeUninit;
+fn drop() {}
+fn forget() {}
+'''
+
+SH_ALL = r'''use konst::{array, iter, option, result, slice, string};
+fn c19() {
+    let _ = konst::min!(1u8, 2); let _ = konst::max_by_key!(1u8, 2, |x| *x); let _ = konst::min_by!(1u8, 2, |a, b| konst::const_cmp!(*a, *b));
+    let _ = option::unwrap_or!(::core::option::Option::Some(1u8), 2); let _ = option::map!(::core::option::Option::Some(1u8), |x| x + 1);
+    let _ = result::unwrap_or!(::core::result::Result::<u8, u8>::Ok(1), 2); let _ = result::map_err!(::core::result::Result::<u8, u8>::Ok(1), |x| x + 1);
+}
+fn c16() { let _ = (konst::const_eq!("a", "a"), konst::const_cmp!(1u8, 2u8), konst::const_cmp_for!(option; ::core::option::Option::Some(1u8), ::core::option::Option::None::<u8>), konst::const_eq_for!(slice; &[1u8][..], &[1u8][..])); }
+fn c10(xs: &[u8]) { let _ = iter::eval!(xs, copied(), filter(|x| *x > 1), map(|x| x * 2), rev(), take(2), fold(0u8, |a, x| a + x)); let _ = iter::eval!(xs, position(|x| *x == 2)); let _ = iter::eval!(xs, enumerate(), zip(0u8..), count()); }
+const COLL: [u8; 2] = iter::collect_const!(u8 => &[1u8, 2, 3], copied(), filter(|x| *x != 2));
+fn c11() { let _ = (array::map!([1u8, 2, 3], |x| x + 1), array::from_fn!(|i| i) as [usize; 2], array::map_!([1u8, 2], |x| x), array::from_fn_!(|i| i) as [usize; 2]); }
+struct P { a: u16, b: u8 }
+fn c15(p: P, t: (u16, u8), arr: [u16; 3]) -> usize { konst::destructure!{P{a, b} = p} konst::destructure!{(x, y) = t} konst::destructure!{[h, rest @ ..] = arr} a as usize + b as usize + x as usize + y as usize + h as usize + rest.len() }
+fn c18(mut p: konst::Parser<'_>) -> u8 { konst::parser_method!{p, strip_prefix; "a" | "b" => 1, "cd" => 2, _ => 0} }
+const C20: (&str, &str, [u8; 3]) = (string::str_concat!(&["a", "b"]), string::str_join!(",", &["a", "b"]), slice::slice_concat!(u8, &[&[1], &[2, 3]]));
+fn c12(p: konst::Parser<'_>) -> bool { konst::parse_with!(p, u8).is_ok() }
+const U: u8 = konst::unwrap_ctx!(konst::primitive::parse_u8("12"));
+fn main() { c19(); c16(); c10(&[1, 2, 3]); c11(); let _ = c15(P { a: 1, b: 2 }, (1, 2), [1, 2, 3]); let _ = c18(konst::Parser::new("ab")); let _ = c12(konst::Parser::new("1")); let _ = (COLL, C20, U); }
+'''
+
 PROGRAMS = {
+    "C02": {"results_borrow_the_slice_and_are_const": C02P},
+    "C03": {"results_borrow_the_haystack_and_are_const": C0345P},
+    "C04": {"results_borrow_the_haystack_and_are_const": C0345P},
+    "C05": {"results_borrow_the_haystack_and_are_const": C0345P},
+    "C12": {"user_items_named_like_std_modules_and_types": SHADOW_TYPES + SH_ALL, "parser_results_borrow_the_input_and_are_const": C121314P},
+    "C13": {"parser_results_borrow_the_input_and_are_const": C121314P},
+    "C14": {"parser_results_borrow_the_input_and_are_const": C121314P},
+    "C16": {"user_items_named_like_std_modules_and_types": SHADOW_TYPES + SH_ALL, "comparison_macros_in_consts_with_user_macros_named_like_std_macros": C16P},
     "C06": {"remainder_and_pieces_outlive_the_iterator": C06},
     "C07": {"as_str_and_items_outlive_the_iterator": C07},
     "C08": {"remainder_as_slice_and_items_outlive_the_iterator": C08},
-    "C10": {"adapter_arguments_may_borrow_temporaries": C10, "user_macros_named_like_std_macros": SHADOW + SH_C10},
-    "C11": {"user_macros_named_like_std_macros": SHADOW + SH_C11},
-    "C15": {"user_macros_named_like_std_macros": SHADOW + SH_C15},
-    "C18": {"user_macros_named_like_std_macros": SHADOW + SH_C18},
-    "C19": {"user_macros_named_like_std_macros": SHADOW + SH_C19},
-    "C20": {"user_macros_named_like_std_macros": SHADOW + SH_C20},
+    "C10": {"user_items_named_like_std_modules_and_types": SHADOW_TYPES + SH_ALL, "adapter_arguments_may_borrow_temporaries": C10, "user_macros_named_like_std_macros": SHADOW + SH_C10},
+    "C11": {"user_items_named_like_std_modules_and_types": SHADOW_TYPES + SH_ALL, "user_macros_named_like_std_macros": SHADOW + SH_C11},
+    "C15": {"user_items_named_like_std_modules_and_types": SHADOW_TYPES + SH_ALL, "user_macros_named_like_std_macros": SHADOW + SH_C15},
+    "C18": {"user_items_named_like_std_modules_and_types": SHADOW_TYPES + SH_ALL, "user_macros_named_like_std_macros": SHADOW + SH_C18},
+    "C19": {"user_items_named_like_std_modules_and_types": SHADOW_TYPES + SH_ALL, "user_macros_named_like_std_macros": SHADOW + SH_C19},
+    "C20": {"user_items_named_like_std_modules_and_types": SHADOW_TYPES + SH_ALL, "user_macros_named_like_std_macros": SHADOW + SH_C20},
+}
+
+
+
+# programs that MUST be rejected: a result may not outlive what it borrows from (family <prop>.sigfail)
+def _fail(body):
+    return ALLOW + body + "\nfn main() {}\n"
+
+
+MUST_FAIL = {
+    "C02": {
+        "as_chunks_of_a_local": _fail("fn f() -> &'static [[u8; 2]] { let v = vec![1u8, 2, 3, 4]; konst::slice::as_chunks::<u8, 2>(&v).0 }"),
+        "as_rchunks_remainder_of_a_local": _fail("fn f() -> &'static [u8] { let v = vec![1u8, 2, 3]; konst::slice::as_rchunks::<u8, 2>(&v).0 }"),
+        "slice_from_of_a_local": _fail("fn f() -> &'static [u8] { let v = vec![1u8, 2, 3]; konst::slice::slice_from(&v, 1) }"),
+        "split_at_mut_aliasing": _fail("fn f(v: &mut [u8]) { let (a, b) = konst::slice::split_at_mut(v, 1); v[0] = 1; a[0] = b[0]; }"),
+        "try_into_array_of_a_local": _fail("fn f() -> &'static [u8; 2] { let v = vec![1u8, 2]; konst::slice::try_into_array::<u8, 2>(&v).unwrap() }"),
+    },
+    "C03": {
+        "str_from_of_a_local": _fail("fn f() -> &'static str { let s = String::from(\"abc\"); konst::string::str_from(&s, 1) }"),
+        "get_range_of_a_local": _fail("fn f() -> Option<&'static str> { let s = String::from(\"abc\"); konst::string::get_range(&s, 0, 1) }"),
+        "split_at_of_a_local": _fail("fn f() -> &'static str { let s = String::from(\"abc\"); konst::string::split_at(&s, 1).1 }"),
+    },
+    "C04": {
+        "find_skip_of_a_local": _fail("fn f() -> Option<&'static str> { let s = String::from(\"abc\"); konst::string::find_skip(&s, \"a\") }"),
+        "rfind_keep_of_a_local": _fail("fn f() -> Option<&'static str> { let s = String::from(\"abc\"); konst::string::rfind_keep(&s, 'a') }"),
+        "split_once_of_a_local": _fail("fn f() -> Option<(&'static str, &'static str)> { let s = String::from(\"a=b\"); konst::string::split_once(&s, '=') }"),
+    },
+    "C05": {
+        "trim_matches_of_a_local": _fail("fn f() -> &'static str { let s = String::from(\"abc\"); konst::string::trim_matches(&s, \"a\") }"),
+        "strip_prefix_of_a_local": _fail("fn f() -> Option<&'static str> { let s = String::from(\"abc\"); konst::string::strip_prefix(&s, 'a') }"),
+        "bytes_trim_of_a_local": _fail("fn f() -> &'static [u8] { let s = vec![32u8, 1]; konst::slice::bytes_trim(&s) }"),
+    },
+    "C06": {
+        "remainder_of_a_local": _fail("fn f() -> &'static str { let s = String::from(\"a,b\"); konst::string::split(&s, \",\").remainder() }"),
+        "piece_of_a_local": _fail("fn f() -> &'static str { let s = String::from(\"a,b\"); konst::string::rsplit(&s, ',').next().unwrap().0 }"),
+    },
+    "C07": {
+        "as_str_of_a_local": _fail("fn f() -> &'static str { let s = String::from(\"ab\"); konst::string::chars(&s).as_str() }"),
+        "char_indices_as_str_of_a_local": _fail("fn f() -> &'static str { let s = String::from(\"ab\"); konst::string::char_indices(&s).next().unwrap().1.as_str() }"),
+    },
+    "C08": {
+        "remainder_of_a_local": _fail("fn f() -> &'static [u8] { let v = vec![1u8, 2, 3]; konst::slice::array_chunks::<u8, 2>(&v).remainder() }"),
+        "window_of_a_local": _fail("fn f() -> &'static [u8] { let v = vec![1u8, 2, 3]; konst::slice::windows(&v, 2).next().unwrap().0 }"),
+        "as_slice_of_a_local": _fail("fn f() -> &'static [u8] { let v = vec![1u8, 2, 3]; konst::slice::iter(&v).as_slice() }"),
+    },
+    "C13": {
+        "remainder_of_a_local": _fail("fn f() -> &'static str { let s = String::from(\"ab\"); konst::Parser::new(&s).trim().remainder() }"),
+        "piece_of_a_local": _fail("fn f() -> &'static str { let s = String::from(\"a,b\"); konst::Parser::new(&s).split(',').unwrap().0 }"),
+    },
+    "C20": {
+        "to_bytes_of_a_local": _fail("fn f() -> &'static [u8] { let v = vec![97u8, 0]; let c = konst::ffi::cstr::from_bytes_until_nul(&v).unwrap(); konst::ffi::cstr::to_bytes(c) }"),
+    },
 }
 
 
 def produce_for(prop, tier, seed, release, out_path):
-    progs = PROGRAMS[prop]
+    progs = PROGRAMS.get(prop, {})
+    fails = MUST_FAIL.get(prop, {})
     crate = "sig_" + prop.lower()
     names = sorted(progs)
+    fnames = sorted(fails)
     bins = {"%s_%d" % (crate, k): progs[n] for k, n in enumerate(names)}
+    bins.update({"%s_f%d" % (crate, k): fails[n] for k, n in enumerate(fnames)})
     common.make_crate(crate, bins)
     res, err = common.check_bins(crate)
     if err:
@@ -187,4 +397,14 @@ def produce_for(prop, tier, seed, release, out_path):
             else:
                 imp = "compiles"
             f.write("%s.sig\t%d x%s\t%s\t-\tvalid-program\n" % (prop.lower(), k, n.encode().hex(), imp))
+        for k, n in enumerate(fnames):
+            b = "%s_f%d" % (crate, k)
+            errs = res.get(b)
+            if errs is None:
+                imp = "no verdict from cargo check"
+            elif errs:
+                imp = "rejected"
+            else:
+                imp = "COMPILES (a result outlives what it borrows from)"
+            f.write("%s.sigfail\t%d x%s\t%s\t-\tmust-fail\n" % (prop.lower(), k, n.encode().hex(), imp))
     return ""
